@@ -287,3 +287,44 @@ Definition xastep (e : env) (x : xadb) (o : xop) : res xadb :=
   | Ok (acts, cs) => Ok (mkXA (aapply_all acts (xa x)) (write_files cs (xafiles x)))
   | Err k => Err k
   end.
+
+(* ---------------------------------------------------------------- tags that are not recognised
+   Every command that names a tag resolves the name first (Tags.getTag) and raises TagNotRecognized
+   for a name that is not registered with this installation: Eups.assignTag and Eups.unassignTag
+   on their first line, Eups.declare once its arguments are settled and BEFORE Database.declare
+   writes the version file (noaction or not), Eups.undeclare --tag through Eups.unassignTag; with
+   undeclareVersionAndTag the version is looked up first as for a plain undeclare (ProductNotFound,
+   or several versions to choose from), and the tag is resolved before the version is removed.
+   [known] is the list of registered global tags.  [kstep] is [xstep] behind that check. *)
+Definition xop_tag (x : xop) : option str :=
+  match x with
+  | XDeclare _ _ _ _ _ t _ => t
+  | XOld (Declare _ _ _ _ _ t) => t
+  | XOld (AssignTag _ t _ _) => Some t
+  | XOld (UnassignTag _ t _ _) => Some t
+  | XOld (UndeclareTag _ _ _ t _) => Some t
+  | XOld _ => None
+  end.
+
+Definition unknown_tag (known : list str) (x : xop) : bool :=
+  match xop_tag x with Some t => negb (mem_str t known) | None => false end.
+
+Definition unknown_tag_error (a : adb) (x : xop) : errkind :=
+  match x with
+  | XOld (UndeclareTag o n vo _ true) =>
+      match undeclare_target a o n vo with Err k => k | Ok _ => Refused end
+  | _ => Refused
+  end.
+
+Definition kstep (known : list str) (e : env) (x : xdb) (o : xop) : res xdb :=
+  if unknown_tag known o then Err (unknown_tag_error (view (xd x)) o) else xstep e x o.
+
+Definition kstep_total (known : list str) (e : env) (x : xdb) (o : xop) : xdb :=
+  match kstep known e x o with Ok x' => x' | Err _ => x end.
+
+Definition krun (known : list str) (e : env) (x : xdb) (os : list xop) : xdb :=
+  fold_left (kstep_total known e) os x.
+
+(* the history without the commands that name a tag that is not recognised *)
+Definition recognised (known : list str) (os : list xop) : list xop :=
+  filter (fun o => negb (unknown_tag known o)) os.
